@@ -211,6 +211,11 @@ func redactCommand(cmd *orderedmap.OrderedMap[string, any], shouldEagerRedact bo
 			cmd.Set("u", redactArrayValues(updateArr, shouldEagerRedact, false, false, []string{}))
 		}
 	}
+	if arrayFilters, ok := cmd.Get("arrayFilters"); ok {
+		if arrayFiltersArr, ok := arrayFilters.([]any); ok {
+			cmd.Set("arrayFilters", redactArrayValues(arrayFiltersArr, shouldEagerRedact, false, false, []string{}))
+		}
+	}
 	if _, isInsert := cmd.Get("insert"); isInsert {
 		if docs, ok := cmd.Get("documents"); ok {
 			if docsArr, ok := docs.([]any); ok {
